@@ -21,6 +21,7 @@ type PubSpec struct {
 	Pre    bool // attach in the main task before the concurrent phase starts
 	Linger bool // before detaching, wait until nothing else can run (lets the readers attach first)
 	Incompatible bool // publishes tracks the (always-available) path refuses
+	QuietBeforeLast bool // before its last write, wait until nothing else can run (other publishers' attempts have completed)
 }
 
 // RdrSpec scripts one reader task: attach (Twice: call AddReader twice), wait to be closed or detach.
@@ -99,6 +100,9 @@ func PubReadBodyOpt(c *conf.Conf, pubs []PubSpec, rdrs []RdrSpec, hooks bool, au
 					return
 				}
 				for i := 1; i <= ps.Writes; i++ {
+					if ps.QuietBeforeLast && i == ps.Writes {
+						vsched.WaitQuiet()
+					}
 					Write(res.SubStream, m, f, ps.ID[0], i)
 				}
 				if ps.Linger {
@@ -193,6 +197,24 @@ func MaxReadersInvariant() string {
 	return ""
 }
 
+// removalDone: the point from which publisher x is certainly detached after the path closed it for a
+// replacement attempt: the first answer given to another publisher after "close x" (the path closes the old
+// publisher, removes it, and only then accepts or refuses the new one). Close() itself is only the notification:
+// until the removal has been executed the old publisher is still the current one.
+func removalDone(trace []string, closedAt map[string]int, x string) (int, bool) {
+	ca, ok := closedAt[x]
+	if !ok {
+		return 0, false
+	}
+	for i := ca + 1; i < len(trace); i++ {
+		w := strings.Fields(trace[i])
+		if (w[0] == "attached" && w[1] != x) || (w[0] == "publish" && w[1] != x && len(w) > 2 && w[2] == "rejected") {
+			return i, true
+		}
+	}
+	return 0, false
+}
+
 func settledBefore(trace []string, i int) bool {
 	for _, l := range trace[:i] {
 		if strings.HasPrefix(l, "settled") {
@@ -278,7 +300,7 @@ func CheckPublishersOpt(override bool, sameStream bool) func(o *vsched.Outcome) 
 				if prev, ok := gotFrom[r]; ok && prev != x && !sameStream {
 					return "mixed-publishers", fmt.Sprintf("reader %s received units of two publishers on one stream | %s", r, tr)
 				}
-				if ca, ok := closedAt[x]; ok && sameStream && beginAt[u] > ca && !settledBefore(o.Trace, ca) {
+				if ca, ok := removalDone(o.Trace, closedAt, x); ok && sameStream && beginAt[u] > ca && !settledBefore(o.Trace, ca) {
 					return "closed-publisher-data", fmt.Sprintf("unit %s was written after publisher %s had been closed by the path (replacement attempt) and still reached reader %s | %s", u, x, r, tr)
 				}
 				if sameStream {
